@@ -342,6 +342,7 @@ func driveGen(args []string) error {
 	if err != nil {
 		return err
 	}
+	var sharedEncoder encode.Encoder
 	devnull, _ := os.OpenFile(os.DevNull, os.O_WRONLY, 0)
 	stdout := os.Stdout
 	rng := newRand(707)
@@ -416,30 +417,34 @@ func driveGen(args []string) error {
 			}
 			// P2: Generator -> [logger ->] Encoder -> bytes -> Decoder -> Renderer
 			{
-				var e encode.Encoder
+				// every other sequence goes into a long-lived Encoder (each sequence starts with Reset)
+				ep := &encode.Encoder{}
+				if i%2 == 1 {
+					ep = &sharedEncoder
+				}
 				we := enc.Next()
 				we.Emit(encStart{Ev: "start", ID: id + "/P2", Cmp: []string{"err", "mode", "sel"}})
 				wm := rend.Next()
 				wm.Emit(rendSrc{Ev: "rsrc", ID: id + "/P2/model", Rect: [4]int{0, 0, 64, 64}})
 				var hist []Call
 				nc := 0
-				fd := &fwdDest{dest: &e,
+				fd := &fwdDest{dest: ep,
 					onCall: func(c Call) {
 						nc++
-						apply(&e, &c)
+						apply(ep, &c)
 						hist = append(hist, c)
-						we.Emit(encCall{Ev: "call", Call: c, Proj: projOf(&e), Ret: []int{}})
+						we.Emit(encCall{Ev: "call", Call: c, Proj: projOf(ep), Ret: []int{}})
 						wm.Emit(map[string]interface{}{"ev": "mcall", "call": c})
 					},
 					onRead: func(which string, v uint8) {
 						c := mkCall(which)
-						we.Emit(encCall{Ev: "call", Call: c, Proj: projOf(&e), Ret: []int{int(v)}})
+						we.Emit(encCall{Ev: "call", Call: c, Proj: projOf(ep), Ret: []int{int(v)}})
 						wm.Emit(map[string]interface{}{"ev": "read", "which": which, "val": int(v)})
 					}}
 				os.Stdout = devnull
 				runSteps(st, wrap(fd), wm, &nc)
 				os.Stdout = stdout
-				b, berr := e.Bytes()
+				b, berr := ep.Bytes()
 				stats["P2"]++
 				if berr != nil {
 					stats["P2.encerr"]++
